@@ -204,6 +204,15 @@ func (a *Agent) handleICMPOpenAck(peerID identity.AgentID, frame *protocol.Frame
 	a.icmpIngressMu.RUnlock()
 
 	if ingress != nil {
+		// The key agreement runs once: a repeated ICMP_OPEN_ACK would run it
+		// again with the already zeroed ephemeral private key.
+		ingress.mu.RLock()
+		established := ingress.SessionKey != nil
+		ingress.mu.RUnlock()
+		if established {
+			return
+		}
+
 		ack, err := protocol.DecodeICMPOpenAck(frame.Payload)
 		if err != nil {
 			ingress.closePendingOpen(err)
@@ -237,6 +246,14 @@ func (a *Agent) handleICMPOpenAck(peerID identity.AgentID, frame *protocol.Frame
 	a.icmpWSSessionMu.RUnlock()
 
 	if wsSession == nil {
+		return
+	}
+
+	// As above: ignore a repeated ICMP_OPEN_ACK once the session has its key.
+	wsSession.mu.RLock()
+	established := wsSession.SessionKey != nil
+	wsSession.mu.RUnlock()
+	if established {
 		return
 	}
 
